@@ -661,7 +661,7 @@ def runtime_single_writer_stage(ctx):
     import pipelib
     exe = pipelib.build(ctx, name="h_pipe_c02")
     n = 3000 if ctx.tier == "thorough" else 320
-    kinds = ["avgswitch", "avgswitch", "avgswitch", "avg", "abort", "monitor"]
+    kinds = ["avgswitch", "avgswitch", "avgswitch", "avg", "abort", "monitor", "api", "busyrestart", "busyrestart", "busyrestart"]
     cases = []
     import glob as _glob
     for f in sorted(_glob.glob(os.path.join(vlib.VERIF, "corpus", "pipe", "*.prog"))):      # former failures of this stage first
